@@ -37,7 +37,7 @@ MANIFEST = {
             "2-3 pre-emption schedules and a free-running stress; each concurrent result must equal the sequential result and no call may fail.",
     "note": "Trusted: the scheduler (vf/sched.py) serialises threads correctly; CPython executes the traced line events in program order.",
 }
-BUDGET = {"quick": {"shards": 16, "examples": 12, "wall": 170},
+BUDGET = {"quick": {"shards": 16, "examples": 12, "wall": 260},
           "thorough": {"shards": 16, "examples": 600, "wall": 1700}}
 
 CATALOGUE = [
@@ -58,9 +58,10 @@ CATALOGUE = [
     {"op": "count_filter", "cond": ["u", "<", 9223372036854775808 + 8]},
     {"op": "statistics_prop"},                                             # the cached property of the handle
     {"op": "slice_statistics", "i": 1, "j": 3},                           # ... and of a handle derived from it
+    {"op": "plain_read"},                                                  # the categorical column read as plain values
 ]
 QUICK_PAIRS = [(0, 3), (3, 0), (2, 3), (3, 2), (7, 3), (3, 7), (8, 3), (10, 3), (11, 12), (12, 11), (14, 13), (13, 12), (15, 16), (16, 15),
-               (0, 10), (10, 1)]   # reads of one handle with different `categories=` / `columns=` selections
+               (0, 10), (10, 1), (17, 10), (10, 17)]   # reads of one handle with different `categories=` / `columns=` selections
 SYM_DELTAS = [0, 1, 2, 3, 5]
 CHUNK = 150
 MAX_STEPS = 6000
@@ -114,6 +115,8 @@ def run_op(op, pf):
         return pf.count(filters=[tuple(op["cond"])])
     if k == "cat_read":
         return pf.to_pandas(columns=["c", "x"], categories=["c"])
+    if k == "plain_read":
+        return pf.to_pandas(columns=["c", "x"], categories=[])
     raise ValueError(k)
 
 
@@ -167,7 +170,8 @@ def enumerate_cases(tier):
     pairs = QUICK_PAIRS if tier == "quick" else [(a, b) for a in range(len(CATALOGUE)) for b in range(len(CATALOGUE)) if a != b]
     for a, b in pairs:
         for k0 in range(1, MAX_STEPS, CHUNK):
-            yield {"kind": "single", "a": a, "b": b, "k0": k0, "k1": k0 + CHUNK - 1, "ds": "simple"}
+            # every line step of A
+            yield {"kind": "single", "a": a, "b": b, "k0": k0, "k1": k0 + CHUNK - 1, "ds": "simple", "step": 1}
     for k0 in range(1, 1500, CHUNK):
         yield {"kind": "single_writer", "k0": k0, "k1": k0 + CHUNK - 1}
     # two pre-emptions around the same program point of two threads running the same code: A stops after k steps, B runs
@@ -249,7 +253,7 @@ def run_case(case):
             K, _, err = sched.count_steps(lambda: run_op(CATALOGUE[a], pf))
             if err is not None:
                 return viol("raised_alone|" + CATALOGUE[a]["op"], exc_detail(err), labels=labels)
-            for k in range(case["k0"], min(case["k1"], K) + 1):
+            for k in range(case["k0"], min(case["k1"], K) + 1, case.get("step", 1)):
                 pf = fastparquet.ParquetFile(path)
                 s = sched.Scheduler([lambda: run_op(CATALOGUE[a], pf), lambda: run_op(CATALOGUE[b], pf)], [(k, 1)], first=0)
                 try:
